@@ -12,15 +12,17 @@ CONSTANTS MaxLen,   \* longest history
           MaxLate,   \* at most this many late cancellations in one history
           Family     \* "base": the seven kinds below; "import": invocations that import a module
                      \* (normal, impok, imperr: the module body fails, impcancel: cancelled during the import)
-Apis == {"RunCode", "Call"}
+\* "RisorCall" = risor.Call(ctx, code, name, args, WithVM(vm)): RunCode of the (same) code object, then Call
+Apis == IF Family = "risorcall" THEN {"RisorCall", "Call"} ELSE {"RunCode", "Call"}
 \* what the invocation does: finishes normally, raises a run-time error three calls deep, provokes a recovered Go
 \* panic at once or 600 script frames deep, recurses until the frame stack (overflow) or the operand stack (opoverflow)
 \* overflows, or is cancelled mid-run
 Kinds == IF Family = "import" THEN {"impmod", "impok", "imperr", "impcancel"}
+         ELSE IF Family = "risorcall" THEN {"normal", "error", "cancelled", "badargs"}   \* badargs: wrong argument count
          ELSE {"normal", "error", "panic", "deeppanic", "overflow", "opoverflow", "cancelled"}
 \* the context the invocation runs under: cancellable, or context.Background() (no Done channel)
-CtxKinds(kind) == IF kind \in {"normal", "error", "impok", "imperr", "impmod"} THEN {"cancel", "background"} ELSE {"cancel"}
-Expected(kind) == CASE kind \in {"normal", "impok", "impmod"} -> "value" [] kind = "imperr" -> "anyerror" [] kind = "impcancel" -> "ctxerr"
+CtxKinds(kind) == IF kind \in {"normal", "error", "impok", "imperr", "impmod", "badargs"} THEN {"cancel", "background"} ELSE {"cancel"}
+Expected(kind) == CASE kind \in {"normal", "impok", "impmod"} -> "value" [] kind \in {"imperr", "badargs"} -> "anyerror" [] kind = "impcancel" -> "ctxerr"
                     [] kind = "error" -> "index error" [] kind \in {"panic", "deeppanic"} -> "panic"
                     [] kind \in {"overflow", "opoverflow"} -> "anyerror" [] kind = "cancelled" -> "ctxerr"
 \* invocation i may cancel the context of any earlier invocation (the interesting ones: those that finished)
